@@ -33,13 +33,18 @@ Available algorithms: 'first-fit', 'best-fit', 'first-fit-decreasing',
 better results. For optimal solutions on small instances, use MILP instead.
 """
 
-import sys
 from collections.abc import Sequence
+from fractions import Fraction
 
 from solvor.types import Result, Status
 from solvor.utils import check_positive
 
 __all__ = ["solve_bin_pack"]
+
+
+def _exact(x) -> Fraction:
+    """The number the caller wrote: ints and Fractions as they are, a float through its shortest repr."""
+    return Fraction(x) if isinstance(x, (int, Fraction)) else Fraction(str(x))
 
 
 def solve_bin_pack(
@@ -79,24 +84,23 @@ def solve_bin_pack(
     else:
         indices = list(range(n))
 
-    # The running remainders pick up float residue (1.0 - 0.3 - 0.3 - 0.3 is a hair below 0.1): an item that fills a
-    # bin exactly must still fit. A remainder is the result of at most n subtractions, each rounded by at most half
-    # an ulp of the capacity, so that is all the fit tests allow for. Integral data is subtracted exactly and gets
-    # no allowance.
-    integral = float(bin_capacity).is_integer() and all(float(size).is_integer() for size in item_sizes)
-    tol = 0.0 if integral else n * sys.float_info.epsilon * bin_capacity
+    # Loads are kept exactly, in the decimal value the caller wrote (0.1 is one tenth): the running remainders pick up
+    # no float residue (1.0 - 0.3 - 0.3 - 0.3 is exactly 0.1), so the fit tests need no allowance and an item that
+    # is larger than the room left - by however little - opens a new bin.
+    capacity = _exact(bin_capacity)
+    sizes = [_exact(size) for size in item_sizes]
 
     # Bins: list of (remaining_capacity, [item_indices])
-    bins: list[tuple[float, list[int]]] = []
+    bins: list[tuple[Fraction, list[int]]] = []
     assignments = [0] * n  # assignments[item] = bin_index
 
     for item_idx in indices:
-        size = item_sizes[item_idx]
+        size = sizes[item_idx]
 
         if size == 0:
             # Zero-size items go in first bin (or create one)
             if not bins:
-                bins.append((bin_capacity, []))
+                bins.append((capacity, []))
             bins[0][1].append(item_idx)
             assignments[item_idx] = 0
             continue
@@ -107,20 +111,20 @@ def solve_bin_pack(
             # Find bin with least remaining space that still fits
             best_remaining = float("inf")
             for b, (remaining, _) in enumerate(bins):
-                if size <= remaining + tol and remaining < best_remaining:
+                if size <= remaining and remaining < best_remaining:
                     best_remaining = remaining
                     best_bin = b
         else:
             # First-fit: find first bin that fits
             for b, (remaining, _) in enumerate(bins):
-                if size <= remaining + tol:
+                if size <= remaining:
                     best_bin = b
                     break
 
         if best_bin == -1:
             # Open new bin
             best_bin = len(bins)
-            bins.append((bin_capacity, []))
+            bins.append((capacity, []))
 
         # Place item in bin
         remaining, items = bins[best_bin]
